@@ -21,15 +21,15 @@ GEN = {"und4": "modularity_louvain_und", "und5": "modularity_louvain_und",
        "fund4": "modularity_finetune_und", "dir4": "modularity_louvain_dir",
        "fdir4": "modularity_finetune_dir"}
 GEN_B = ["mod5", "moddir4", "potts5", "nsym4", "nasym4"]      # community_louvain (LouvainBImpl)
-MCB_QUICK = ["q_mod4", "q_moddir3", "q_nsym3", "q_nasym3"]
+MCB_QUICK = ["q_mod4", "q_nsym3"]
 MCB_THOROUGH = ["q_mod4", "q_moddir3", "q_potts4", "q_nsym3", "q_nasym3", "t_mod4w", "t_nsym4", "t_nasym4", "t_moddir4"]
 GEN_S = {"sta4": "modularity_louvain_und_sign", "gja4": "modularity_louvain_und_sign",
          "pos4": "modularity_louvain_und_sign", "fsmp4": "modularity_finetune_und_sign",
          "fneg4": "modularity_finetune_und_sign"}                  # signed routines (LouvainSImpl)
-MCS_QUICK = ["q_sta4", "q_fgja3"]
+MCS_QUICK = ["q_fgja3"]
 MCS_THOROUGH = ["q_sta4", "q_fgja3", "t_smp4", "t_fneg4", "t_pos4", "t_fsta4"]
-MC_QUICK = ["q_und4", "q_und4g", "q_dir3", "q_fdir3"]
-MC_THOROUGH = ["q_und4", "q_und4g", "q_fund4", "q_dir3", "q_fdir3", "t_und4w", "t_fund4w", "t_dir4", "t_fdir4"]
+MC_QUICK = ["q_und4", "q_fdir3"]
+MC_THOROUGH = ["q_und4", "q_und4g", "q_fund4", "q_dir3", "q_fdir3", "t_und4w", "t_fund4w", "t_fdir4"]
 GAMMAS = [(1, 1), (3, 4), (5, 4)]
 QTYPES = ["sta", "pos", "smp", "gja", "neg"]
 
@@ -47,7 +47,17 @@ def rand_partition(rng, n, pool_labels=None):
     return labs
 
 
+QUICK_GEN = {"und4", "fund4", "fdir4"}
+QUICK_GEN_B = {"mod5", "nsym4", "moddir4"}
+QUICK_GEN_S = {"sta4", "fsmp4"}
+
+
 def behaviour_jobs(ctx, prop, per_worker):
+    global GEN, GEN_B, GEN_S
+    if ctx.quick:      # the quick tier replays a subset of the behaviour families
+        GEN = {k: v for k, v in GEN.items() if k in QUICK_GEN}
+        GEN_B = [k for k in GEN_B if k in QUICK_GEN_B]
+        GEN_S = {k: v for k, v in GEN_S.items() if k in QUICK_GEN_S}
     thunks = [(lambda c=c: ctx.gen("MC_Louvain.tla", "Gen_Louvain_%s.cfg" % c, tag="sim_" + c, workers=4,
                                    timeout=900, extra=["-simulate", "num=%d" % per_worker, "-depth", "400",
                                                        "-seed", str(ctx.seed + 17)])) for c in GEN]
@@ -206,7 +216,7 @@ def run_family(ctx, prop):
                  [(lambda c=c: ctx.mc("MC_LouvainS.tla", "MC_LouvainS_%s.cfg" % c, tag="mcS_" + c,
                                       workers=6, timeout=3000))
                   for c in (MCS_QUICK if ctx.quick else MCS_THOROUGH)], width=4)
-    jobs = behaviour_jobs(ctx, prop, 40 if ctx.quick else 500)
+    jobs = behaviour_jobs(ctx, prop, 60 if ctx.quick else 500)
     nb = len(jobs)
     jobs += random_jobs(ctx, prop, 360 if ctx.quick else 6000)
     recs = pool.run_jobs("harness.props.c02", jobs, limit=20.0)
